@@ -440,6 +440,9 @@ func runSeq(cs seqCase, st *stepStats) (err error) {
 	defer func() {
 		if err == nil {
 			releaseConn(c)
+		} else if lerr := locksFree(nil); lerr != nil {
+			// a panic (or hang) that also left a global mutex locked: say so, and stop using this process
+			err = fmt.Errorf("%v\n(and %v)", err, lerr)
 		}
 	}()
 
